@@ -451,6 +451,12 @@ type e2Profile struct {
 	steps       int
 	maxJobs     int
 	weights     map[string]int
+	// confluent restricts the workload to one whose fault-free outcome does not
+	// depend on the order in which the controllers get to see the events of a
+	// phase (C20 differential): no per-Job policy overrides, Forbid Jobs only into
+	// an idle JobConfig, cron JobConfigs never Forbid and never fed by users, at
+	// most one new Job per JobConfig and phase, phases separated by >= 1 s.
+	confluent bool
 }
 
 func genE2Setup(t *rapid.T, p e2Profile) *E2Trace {
@@ -461,6 +467,10 @@ func genE2Setup(t *rapid.T, p e2Profile) *E2Trace {
 		ForceDelete:    optInt64(t, "cfgForce", 0, 20, 900),
 		TTLDefault:     optInt64(t, "cfgTTL", 0, 60, 3600),
 		MaxEnqueued:    optInt64(t, "cfgMaxEnq", 2, 20),
+	}
+	if p.confluent {
+		one := int64(1)
+		tr.Cfg.MaxEnqueued, tr.Cfg.MaxMissed = nil, &one
 	}
 	n := rapid.IntRange(1, p.maxJCs).Draw(t, "njc")
 	for i := 0; i < n; i++ {
@@ -488,6 +498,9 @@ func genE2Setup(t *rapid.T, p e2Profile) *E2Trace {
 		j.RestartOnFailure = rapid.IntRange(0, 3).Draw(t, "restartOnFailure") == 0
 		if p.cron && rapid.IntRange(0, 2).Draw(t, "cron?") != 0 {
 			j.Cron = rapid.SampledFrom([]string{"* * * * *", "*/2 * * * *", "*/20 * * * * * *", "0,30 * * * * * *"}).Draw(t, "cron")
+			if p.confluent && j.Policy == "Forbid" {
+				j.Policy = "Enqueue"
+			}
 		}
 		tr.JCs = append(tr.JCs, j)
 	}
@@ -510,6 +523,13 @@ func genE2Ops(t *rapid.T, tr *E2Trace, p e2Profile) {
 // appended to tr and applied to r.
 func genOpsOn(t *rapid.T, r *e2run, tr *E2Trace, p e2Profile, _ int) {
 	w := r.w
+	createdFor := map[string]bool{} // confluent: JobConfigs that got a Job in this call (= phase)
+	ticked := false
+	if p.confluent {
+		op := E2Op{K: "advance", D: int64(rapid.SampledFrom([]int{1000, 1000, 2000, 5000, 20000, 30000, 60000, 61000, 120000, 600000, 3600000}).Draw(t, "phaseAdv"))}
+		tr.Ops = append(tr.Ops, op)
+		r.apply(op)
+	}
 	for step := 0; step < p.steps; step++ {
 		type cand struct {
 			w  int
@@ -535,9 +555,28 @@ func genOpsOn(t *rapid.T, r *e2run, tr *E2Trace, p e2Profile, _ int) {
 		if r.nJobs < maxJobs+4 && len(jobs) < maxJobs {
 			add("createJob", 6, func() E2Op {
 				op := E2Op{K: "createJob", N: r.nJobs}
-				if len(jcs) > 0 && rapid.IntRange(0, 4).Draw(t, "owned") != 0 {
-					op.A = rapid.SampledFrom(jcs).Draw(t, "jc").Name
-					op.B = rapid.SampledFrom([]string{"", "", "Allow", "Forbid", "Enqueue"}).Draw(t, "jobpolicy")
+				cands := jcs
+				if p.confluent {
+					cands = nil
+					for _, jc := range jcs {
+						idle := true
+						for _, j := range jobs {
+							if ref := metav1.GetControllerOf(j); ref != nil && ref.UID == jc.UID && !j.Status.Phase.IsTerminal() {
+								idle = false
+							}
+						}
+						forbid := jc.Spec.Concurrency.Policy == execution.ConcurrencyPolicyForbid
+						if jc.Spec.Schedule == nil && !createdFor[jc.Name] && jc.DeletionTimestamp == nil && (!forbid || idle) {
+							cands = append(cands, jc)
+						}
+					}
+				}
+				if len(cands) > 0 && rapid.IntRange(0, 4).Draw(t, "owned") != 0 {
+					op.A = rapid.SampledFrom(cands).Draw(t, "jc").Name
+					if !p.confluent {
+						op.B = rapid.SampledFrom([]string{"", "", "Allow", "Forbid", "Enqueue"}).Draw(t, "jobpolicy")
+					}
+					createdFor[op.A] = true
 				}
 				if rapid.IntRange(0, 2).Draw(t, "startAfter?") == 0 {
 					op.D = int64(rapid.SampledFrom([]int{-5, 1, 2, 10, 60, 300}).Draw(t, "startAfter"))
@@ -604,8 +643,8 @@ func genOpsOn(t *rapid.T, r *e2run, tr *E2Trace, p e2Profile, _ int) {
 		add("advance", 6, func() E2Op {
 			return E2Op{K: "advance", D: int64(rapid.SampledFrom([]int{1, 500, 1000, 1000, 2000, 5000, 20000, 30000, 60000, 61000, 120000, 600000, 3600000}).Draw(t, "adv"))}
 		})
-		if p.cron {
-			add("tick", 6, func() E2Op { return E2Op{K: "tick"} })
+		if p.cron && !(p.confluent && ticked) {
+			add("tick", 6, func() E2Op { ticked = true; return E2Op{K: "tick"} })
 			if len(w.Requests) > 0 {
 				add("requeueCron", 2, func() E2Op {
 					q := w.Requests[rapid.IntRange(0, len(w.Requests)-1).Draw(t, "oldreq")]
